@@ -43,7 +43,8 @@ pub fn grounded_extension<T: LabelType>(af: &AAFramework<T>) -> Vec<&crate::aa::
 /// An association list offering the subset of the `HashMap` API used by `LabelSet`.
 ///
 /// It replaces `std::collections::HashMap` in `utils::label` under `cfg(kani)` only: hashbrown's probing and the
-/// random hasher state are out of reach of bounded model checking. It deliberately has no iteration API.
+/// random hasher state are out of reach of bounded model checking. Iteration is in insertion order (`HashMap` promises
+/// no order at all).
 #[derive(Debug)]
 pub struct VecMap<K, V> {
     entries: Vec<(K, V)>,
@@ -71,6 +72,65 @@ impl<K: Eq, V> VecMap<K, V> {
     }
 
     pub fn shrink_to_fit(&mut self) {}
+
+    pub fn clear(&mut self) {
+        self.entries.clear()
+    }
+
+    pub fn len(&self) -> usize {
+        self.entries.len()
+    }
+
+    pub fn is_empty(&self) -> bool {
+        self.entries.is_empty()
+    }
+
+    pub fn capacity(&self) -> usize {
+        self.entries.capacity()
+    }
+
+    pub fn reserve(&mut self, additional: usize) {
+        self.entries.reserve(additional)
+    }
+
+    pub fn contains_key(&self, key: &K) -> bool {
+        self.get(key).is_some()
+    }
+
+    pub fn insert(&mut self, key: K, value: V) -> Option<V> {
+        let mut i = 0;
+        while i < self.entries.len() {
+            if self.entries[i].0 == key {
+                return Some(std::mem::replace(&mut self.entries[i].1, value));
+            }
+            i += 1;
+        }
+        self.entries.push((key, value));
+        None
+    }
+
+    pub fn get_mut(&mut self, key: &K) -> Option<&mut V> {
+        let mut i = 0;
+        while i < self.entries.len() {
+            if self.entries[i].0 == *key {
+                return Some(&mut self.entries[i].1);
+            }
+            i += 1;
+        }
+        None
+    }
+
+    pub fn keys(&self) -> impl Iterator<Item = &K> + '_ {
+        self.entries.iter().map(|e| &e.0)
+    }
+
+    pub fn values(&self) -> impl Iterator<Item = &V> + '_ {
+        self.entries.iter().map(|e| &e.1)
+    }
+
+    pub fn iter(&self) -> impl Iterator<Item = (&K, &V)> + '_ {
+        self.entries.iter().map(|e| (&e.0, &e.1))
+    }
 
     pub fn entry(&mut self, key: K) -> VecMapEntry<'_, K, V> {
         VecMapEntry { map: self, key }
